@@ -7,7 +7,7 @@
 From Coq Require Import List Arith ZArith.
 Import ListNotations.
 From BV Require Import AssemblyB.Defs AssemblyB.Model AssemblyB.PotModel AssemblyB.FmmModel AssemblyB.Decomposition
-  AssemblyB.FmmGlue AssemblyB.C17Thms.
+  AssemblyB.FmmGlue AssemblyB.C17Thms AssemblyB.PropLemmas.
 
 (* target_map' (E - N) source_map + S = dense, single layer; needs only that map_space_to_points does not raise *)
 Theorem C17_scalar_glue_single_layer :
@@ -117,11 +117,7 @@ Theorem C17_hypersingular_glue_laplace_modified :
       = Some f /\
     forall I, f I = matvec (o0 RO) (oadd RO) (omul RO) n
         (fun I0 J => entry (o0 RO) (oadd RO) I0 J (modhelm_hyp_dense RO g st ss quad kr ks Et Es pairs k)) x I).
-Proof.
-  intros A RO Hr ver G4 g st ss Et Es nE quad nbrs kr ks pairs n H1 H2 H3 H4 H5 H6 H7 H8 H9 H10 k x Hok. split.
-  - exact (glue_laplace_hypersingular_correct ver G4 g st ss Et Es nE quad nbrs kr ks pairs n H1 H2 H3 H4 H5 H6 H7 H8 H9 H10 x Hok).
-  - exact (glue_modhelm_hypersingular_correct ver G4 g st ss Et Es nE quad nbrs kr ks pairs n H1 H2 H3 H4 H5 H6 H7 H8 H9 H10 k x Hok).
-Qed.
+Proof. exact @C17_hypersingular_glue_laplace_modified_l. Qed.
 Print Assumptions C17_hypersingular_glue_laplace_modified.
 
 (* Maxwell: rinv multiplicative and an exact inverse on the integration elements (field inverse, J <> 0) *)
@@ -185,11 +181,7 @@ Theorem C17_potential_glue :
              forall pt, f pt = potential_eval RO gs ss quad ksl Es x pt) /\
   (exists f, glue_pot_double_layer RO ver G4 gs ss Es nEs quad x = Some f /\
              forall pt, f pt = potential_eval RO gs ss quad kdl Es x pt).
-Proof.
-  intros A RO Hr ver G4 gs ss Es nEs quad ksl kdl H1 H2 H3 x Hs Hd. split.
-  - exact (glue_pot_single_layer_correct ver G4 gs ss Es nEs quad ksl H1 H2 H3 x Hs).
-  - exact (glue_pot_double_layer_correct ver G4 gs ss Es nEs quad kdl H1 H2 H3 x Hd).
-Qed.
+Proof. exact @C17_potential_glue_l. Qed.
 Print Assumptions C17_potential_glue.
 
 (* supports that are a prefix 0..n-1 of the element list satisfy the support hypotheses of all theorems above *)
@@ -222,7 +214,7 @@ Theorem C17_point_map_refuted :
       glue_single_layer RO ver G4 gt gs st ss supp supp nEs quad nbrs Sing x = None /\
       glue_laplace_hypersingular RO ver G4 gt gs st ss supp supp nEs quad nbrs Sing x = None /\
       glue_pot_single_layer RO ver G4 gs ss supp nEs quad x = None.
-Proof. intros A RO ver. exact (@point_map_refuted A RO ver). Qed.
+Proof. exact @C17_point_map_refuted_l. Qed.
 Print Assumptions C17_point_map_refuted.
 
 (* (2) the curl / RWG / div transforms write to point slot nq*position+q instead of nq*element+q: on a trial support
